@@ -70,14 +70,15 @@ Ltac kill_if_false := match goal with |- (if Req_EM_T ?a ?b then _ else _) = _ =
 Ltac kill_gate_true := match goal with |- (if Rle_dec ?a ?b then _ else _) = _ => destruct (Rle_dec a b) as [_|?N]; [|exfalso; lra] end.
 
 (* one leaf of the exponential of the pure quaternion K*u (K = the real multiplying the unit axis) *)
+Ltac rf := first [ring | field].
 Ltac hr Hu0 := first [ring [Hu0] | field_simplify_eq; ring [Hu0]].
 
 Ltac k_nonzero K ux uy uz :=
   first [ lra
         | let Z := fresh "Z" in intros Z;
           match goal with N : 0 <> ?p |- _ =>
-            apply N; first [replace p with (K * ux) by ring | replace p with (K * uy) by ring | replace p with (K * uz) by ring];
-            rewrite Z; ring end ].
+            apply N; first [replace p with (K * ux) by rf | replace p with (K * uy) by rf | replace p with (K * uz) by rf];
+            rewrite Z; rf end ].
 
 Ltac exp_leaf K ux uy uz Hu0 :=
   lazymatch goal with
@@ -85,21 +86,27 @@ Ltac exp_leaf K ux uy uz Hu0 :=
       exfalso;
       match goal with E : 0 = sqrt ?e |- _ =>
         let H := fresh in assert (H : e = K * K) by (hr Hu0); rewrite H, sqrt_sq_abs in E; clear H;
-        assert (K <> 0) by (k_nonzero K ux uy uz);
-        revert E; unfold Rabs; destruct (Rcase_abs K); lra
+        let HK := fresh "HK" in assert (HK : K <> 0) by (k_nonzero K ux uy uz);
+        apply HK; revert E; unfold Rabs; destruct (Rcase_abs K); lra
       end
   | |- Val [1; 0; 0; 0] = _ =>
       let Z := fresh "Z" in
       assert (Z : K = 0)
         by (match goal with E1 : 0 = ?p1, E2 : 0 = ?p2, E3 : 0 = ?p3 |- _ =>
-              replace K with (p1 * ux + p2 * uy + p3 * uz) by (hr Hu0); rewrite <- E1, <- E2, <- E3; ring end);
+              replace K with (p1 * ux + p2 * uy + p3 * uz) by (hr Hu0); rewrite <- E1, <- E2, <- E3; rf end);
       first [ exfalso; lra | rewrite Z, cos_0, sin_0; val_eq; ring ]
   | |- Val _ = _ =>
       match goal with |- context [sqrt ?e] =>
         let H := fresh in assert (H : e = K * K) by (hr Hu0); rewrite H in *; clear H end;
       rewrite sqrt_sq_abs in *;
-      assert (K <> 0) by (let Z := fresh "Z" in intros Z; match goal with N : 0 <> Rabs K |- _ => apply N; rewrite Z, Rabs_R0; reflexivity end);
-      unfold Rabs; destruct (Rcase_abs K); [rewrite cos_neg, sin_neg|]; val_eq; try reflexivity; field; lra
+      let HK := fresh "HK" in
+      assert (HK : K <> 0) by (let Z := fresh "Z" in intros Z; match goal with N : 0 <> Rabs K |- _ => apply N; rewrite Z, Rabs_R0; reflexivity end);
+      destruct (Rtotal_order K 0) as [Kn|[Kz|Kp]]; [|exfalso; exact (HK Kz)|];
+      [rewrite (Rabs_left K Kn), cos_neg, sin_neg | rewrite (Rabs_right K) by lra];
+      repeat match goal with |- context [?p * / _] =>
+        progress (first [replace p with (K * ux) by rf | replace p with (K * uy) by rf | replace p with (K * uz) by rf]) end;
+      let k := fresh "k" in set (k := K) in *; clearbody k;
+      val_eq; try reflexivity; field; lra
   end.
 
 Ltac split_all := repeat match goal with |- (if Req_EM_T ?a ?b then _ else _) = _ => destruct (Req_EM_T a b) as [?E|?N] end.
